@@ -4,6 +4,7 @@ import (
 	"github.com/orda-io/orda/client/pkg/context"
 	"github.com/orda-io/orda/client/pkg/errors"
 	"github.com/orda-io/orda/client/pkg/model"
+	"github.com/orda-io/orda/client/pkg/simhook"
 	"google.golang.org/grpc"
 )
 
@@ -49,6 +50,13 @@ func (its *SyncManager) nextSeq() uint32 {
 
 // Connect makes connections with Orda GRPC and notification servers.
 func (its *SyncManager) Connect() errors.OrdaError {
+	if sc, ok := simhook.ServiceClient(its.serverAddr).(model.OrdaServiceClient); ok {
+		its.serviceClient = sc
+		if its.notifyManager != nil {
+			return its.notifyManager.Connect()
+		}
+		return nil
+	}
 	conn, err := grpc.Dial(its.serverAddr, grpc.WithInsecure())
 	if err != nil {
 		return errors.ClientConnect.New(its.ctx.L(), err.Error())
@@ -68,6 +76,9 @@ func (its *SyncManager) Connect() errors.OrdaError {
 func (its *SyncManager) Close() errors.OrdaError {
 	if its.notifyManager != nil {
 		its.notifyManager.Close()
+	}
+	if simhook.Enabled && its.conn == nil {
+		return nil
 	}
 	if err := its.conn.Close(); err != nil {
 		return errors.ClientClose.New(its.ctx.L(), err.Error())
